@@ -15,6 +15,13 @@ pub fn exec(op: &str, a: &Value) -> Option<Value> {
         // the receiver is the date at noon (valid on every day of the range); its time is then replaced
         "PlainDateTime.withTime" => run(|| { let d = arg_date(&a["recv"])?; PlainDateTime::try_new(d.iso_year(), d.iso_month(), d.iso_day(), 12, 0, 0, 0, 0, 0, iso())?.with_time(arg_time(&a["time"])?) }, p_datetime),
         // numeric primitives: a double is the exact integer `v` plus (frac) one half away from zero, or a non-number
+        // Default::default() of the date types, read through getters (days in month: a getter that needs a real date)
+        "Default.date" => run(|| Ok(match js::s(a, "ty") {
+            "PlainDate" => { let d = PlainDate::default(); (d.year() as i64, d.month() as i64, d.day() as i64, d.days_in_month() as i64) }
+            "PlainDateTime" => { let d = PlainDateTime::default(); (d.year() as i64, d.month() as i64, d.day() as i64, d.days_in_month() as i64) }
+            "PlainYearMonth" => { let d = PlainYearMonth::default(); (d.year() as i64, d.month() as i64, 1, d.days_in_month() as i64) }
+            "PlainMonthDay" => { let d = PlainMonthDay::default(); (d.iso_year() as i64, d.iso_month() as i64, d.iso_day() as i64, 31) }
+            k => panic!("HARNESS: ty {k}") }), |t| json!({"y": int(t.0), "m": int(t.1), "d": int(t.2), "dim": int(t.3)})),
         "Prim.epochNs" => run(|| { use temporal_rs::time::EpochNanoseconds as E; let v = num(&a["v"]);
             let f = || -> f64 { match js::s(a, "special") { "" => { let x = v as f64; assert!(x as i128 == v, "HARNESS: not a double: {}", v);
                 if a["frac"].as_bool().unwrap() { assert!(v.abs() < (1i128 << 51)); x + if v < 0 { -0.5 } else { 0.5 } } else { x } }, sp => crate::ops_wrap::special(sp) } };
@@ -51,6 +58,15 @@ pub fn exec(op: &str, a: &Value) -> Option<Value> {
             js::i(d, "h"), js::i(d, "mi"), js::i(d, "s"), js::i(d, "ms"), js::i(d, "us"), js::i(d, "ns"))) }, p_instant),
         "RealZone.probe" => real_zone_probe(a),
         "TzifBytes.probe" => tzif_bytes_probe(a),
+        "MiscX.deepZoneId" => run(|| { let n = js::i(a, "n") as usize; let s = format!("{}a", "a/".repeat(n.saturating_sub(1)));
+            TimeZone::try_from_identifier_str(&s).map(|_| ()).and(TimeZone::try_from_str(&s).map(|_| ())) }, |_| json!(null)),
+        // year given as a bare `year` (era = false) or as the era year of the calendar's first listed era where it has one
+        "MiscX.partialYear" => run(|| { let cal = Calendar::from_str(js::s(a, "cal"))?; let y = js::i(a, "year") as i32;
+            let mut p = temporal_rs::partial::PartialDate::new().with_month(Some(1)).with_day(Some(1)).with_calendar(cal.clone());
+            p = if a["era"].as_bool().unwrap() { let e = match js::s(a, "cal") { "gregory" | "japanese" => "ce", "roc" => "roc", "buddhist" => "be", "coptic" => "coptic", "ethiopic" => "ethiopic",
+                    "indian" => "saka", "persian" => "persian", "islamic-civil" | "islamic-tbla" => "ah", _ => "" };
+                if e.is_empty() { p.with_year(Some(y)) } else { p.with_era(Some(TinyAsciiStr::<19>::try_from_str(e).expect("era"))).with_era_year(Some(y)) } } else { p.with_year(Some(y)) };
+            PlainDate::from_partial(p, None).and_then(|d| { let _ = (d.year(), d.month(), d.day(), d.era(), d.era_year(), d.day_of_year(), d.days_in_month(), d.in_leap_year(), d.month_code()); Ok(()) }) }, |_| json!(null)),
         _ if op.starts_with("ZonedX.") => zoned_extreme(op, a),
         "ZonedDateTime.new" => run(|| ZonedDateTime::try_new(num(&a["ns"]), iso(), utc()), |z| big(z.epoch_nanoseconds().as_i128())),
         _ => return None,
